@@ -54,6 +54,9 @@ class Dom:
             return a
         if self.le(b, a):
             return b
+        if a not in (INF, NINF) and b not in (INF, NINF) and a[0] >= 0 and b[0] >= 0:
+            # incomparable for some N: k*N + c >= k*nmin + c for k >= 0, a constant lower bound is sound
+            return (0, min(a[0] * self.nmin + a[1], b[0] * self.nmin + b[1]))
         return NINF
 
     def hi_join(self, a, b):
@@ -61,6 +64,10 @@ class Dom:
             return b
         if self.le(b, a):
             return a
+        if a not in (INF, NINF) and b not in (INF, NINF):
+            # lift both to the larger coefficient of N: ka*N + ca <= k*N + ca - (k-ka)*nmin for N >= nmin
+            k = max(a[0], b[0])
+            return (k, max(a[1] - (k - a[0]) * self.nmin, b[1] - (k - b[0]) * self.nmin))
         return INF
 
 
@@ -164,7 +171,16 @@ class Range:
                 return TOP
             return TOP
         if k == "cond":
-            a, b = self.ev(n["then"], st), self.ev(n["else"], st)
+            cn = self.f.nodes.get(n["cond"]) if not isinstance(n.get("cond"), dict) else n["cond"]
+            st_t = self.refine(st, cn, True) if cn is not None else st
+            st_e = self.refine(st, cn, False) if cn is not None else st
+            if st_t is None and st_e is None:
+                st_t = st_e = st
+            if st_t is None:
+                return self.ev(n["else"], st_e)
+            if st_e is None:
+                return self.ev(n["then"], st_t)
+            a, b = self.ev(n["then"], st_t), self.ev(n["else"], st_e)
             return (D.lo_join(a[0], b[0]), D.hi_join(a[1], b[1]))
         if k == "assign":
             return self.assigned_value(n, st)
